@@ -39,6 +39,45 @@ def red_driver(f, n):
     return Driver("drv_%s_decred_%d" % (f.tag, n), params, body)
 
 
+def inplace_driver(f, n):
+    """set_decode_reduce on an element that already holds an arbitrary value: the previous value must not survive"""
+    params = [("a", "in", 8, f.n), ("buf", "in", 1, n), ("out", "out", 8, f.n)]
+    body = ("        let mut r: %s = unsafe { transmute::<[u64; %d], %s>(*a) };\n        r.set_decode_reduce(&buf[..]);\n"
+            "        *out = unsafe { transmute::<%s, [u64; %d]>(r) };") % (f.rust, f.n, f.rust, f.rust, f.n)
+    return Driver("drv_%s_decred_inplace_%d" % (f.tag, n), params, body)
+
+
+def check_inplace(built, f, n, timeout):
+    from engines.llsym.smt import BVEmitter, run_solver, parse_model, bvc
+    ob = Obligation(CFG[0] + ":%s.set_decode_reduce_inplace[len=%d]" % (f.tag, n), "L", [f.rust + "::set_decode_reduce"],
+                    "all previous contents of the element and all %d-byte strings" % n,
+                    "the result is bit-identical to decode_reduce of the same bytes into a fresh element (the previous value does not survive)")
+    t0 = time.time()
+    try:
+        ex1, ins1, o1 = sym_run(built, "drv_%s_decred_inplace_%d" % (f.tag, n))
+        ex2, ins2, o2 = sym_run(built, "drv_%s_decred_%d" % (f.tag, n), concrete={"buf": ins1["buf"]} if n else None)
+    except ExecError as e:
+        return [ob.unknown("executor: %s" % e)]
+    xs, ys = o1["out"], o2["out"]
+    if all((x is y) or (not isinstance(x, T.Term) and not isinstance(y, T.Term) and x == y) for x, y in zip(xs, ys)):
+        return [ob.ok("syntactic (hash-consed terms identical)", time.time() - t0, 0, syntactic=True)]
+    em = BVEmitter()
+    dif = ["(distinct %s %s)" % (em.ref(x, 64) if isinstance(x, T.Term) else bvc(x, 64), em.ref(y, 64) if isinstance(y, T.Term) else bvc(y, 64))
+           for x, y in zip(xs, ys) if x is not y]
+    v, mod, dt = run_solver(em.script(["(or %s)" % " ".join(dif)] if len(dif) > 1 else dif), "z3", timeout)
+    if v == "unsat":
+        return [ob.ok("z3-bv", dt, 1)]
+    if v == "sat":
+        inputs = model_inputs(parse_model(mod), built, "drv_%s_decred_inplace_%d" % (f.tag, n))
+        a_ = built.native("drv_%s_decred_inplace_%d" % (f.tag, n), inputs)["out"]
+        b_ = built.native("drv_%s_decred_%d" % (f.tag, n), {"buf": inputs["buf"]})["out"]
+        if list(a_) != list(b_):
+            return [ob.fail({"key": "%s.set_decode_reduce.inplace" % f.tag, "inputs": {"a": hexl(inputs["a"]), "buf": bytes(inputs["buf"]).hex()},
+                             "native_inplace": hexl(a_), "native_fresh": hexl(b_), "found_by": "z3-bv model, replayed natively"}, "z3-bv", dt, 1)]
+        return [ob.unknown("model does not reproduce natively")]
+    return [ob.unknown("solver: %s" % v)]
+
+
 def byte_sampler(f, n, r):
     q = f.q
     L = f.enc_len
@@ -302,6 +341,10 @@ def run_config(tier, cfg="default", features=None, rustflags="", only=None, fiel
         for n in sorted(set([0, 1, L - 1, L, L + 1, 2 * L] + ([L - 8, L + 8, 3 * L] if tier != "quick" else []))):
             ds.append(dec_driver(f, n))
             items.append(("dec", f, n))
+        for n in (0, 1, L):
+            if n in reds and f.tag != "gfgen256" and (posed("red", f, n, tier) or only):
+                ds.append(inplace_driver(f, n))
+                items.append(("inp", f, n))
         for n in reds:
             if posed("red", f, n, tier) or (only and f.tag != "gfgen256"):
                 ds.append(red_driver(f, n))
@@ -325,6 +368,8 @@ def run_config(tier, cfg="default", features=None, rustflags="", only=None, fiel
             return check_encode(built, f, timeout)
         if kind == "dec":
             return check_decode(built, f, n, timeout)
+        if kind == "inp":
+            return check_inplace(built, f, n, timeout)
         return check_reduce(built, f, n, timeout)
     res = pmap(work, items, nproc=NCPU, timeout=timeout * 5)
     obs, merr = [], None
